@@ -260,6 +260,39 @@ func (e *Env) term(x *Sx) string {
 			e.errf("same: unknown table/component %s", name)
 		}
 		return and(cs...)
+	case "iter.n":
+		it, _ := e.iterOf(x.List[1])
+		return it.N
+	case "iter.consumed":
+		it, is := e.iterOf(x.List[1])
+		return ite(fmt.Sprintf("(< %s %s)", is.Pos, it.N), "(+ "+is.Pos+" 1)", it.N)
+	case "iter.psum":
+		// (iter.psum it ghostcomp gkey...) : contribution of the rows consumed so far
+		it, is := e.iterOf(x.List[1])
+		f, ok := it.Psum[x.List[2].Atom]
+		if !ok {
+			e.errf("iter.psum: %s is not a ghost sum over table %s", x.List[2], it.Table.Name)
+		}
+		var ks []string
+		for _, k := range x.List[3:] {
+			ks = append(ks, e.term(k))
+		}
+		consumed := ite(fmt.Sprintf("(< %s %s)", is.Pos, it.N), "(+ "+is.Pos+" 1)", it.N)
+		return fmt.Sprintf("(%s %s %s)", f, mkKey(ks), consumed)
+	case "wf":
+		// (wf T S key...) : the instance at `key` of the representation invariant of table T that
+		// the (assumed) ORM contract maintains: unique indexes agree with the rows, auto-increment
+		// keys lie in 1..seq
+		t := e.s.Spec.Tables[x.List[1].Atom]
+		if t == nil {
+			e.errf("wf: unknown table %s", x.List[1])
+		}
+		st := e.stateOf(x.List[2])
+		var ks []string
+		for _, k := range x.List[3:] {
+			ks = append(ks, e.term(k))
+		}
+		return e.s.wfTerm(st, t, mkKey(ks))
 	case "key":
 		return e.keyTerm(x)
 	}
@@ -283,10 +316,30 @@ func (e *Env) keyTerm(x *Sx) string {
 	return e.term(x)
 }
 
+// expandLetRoot: `c.F.G` where c is a let bound to a Go path p  ->  `p.F.G`
+func (e *Env) expandLetRoot(a string) string {
+	for n := 0; n < 8; n++ {
+		i := strings.IndexAny(a, ".[")
+		if i < 0 {
+			return a
+		}
+		lx, ok := e.lets[a[:i]]
+		if !ok || !lx.IsAtom() {
+			return a
+		}
+		if _, isVar := e.vars[a[:i]]; isVar {
+			return a
+		}
+		a = lx.Atom + a[i:]
+	}
+	return a
+}
+
 func (e *Env) atom(a string) string {
 	if e.bound[a] {
 		return a
 	}
+	a = e.expandLetRoot(a)
 	if a == "true" || a == "false" || isNumeral(a) {
 		return a
 	}
@@ -338,6 +391,9 @@ func (e *Env) val(x *Sx) Val {
 
 func (e *Env) val0(x *Sx) Val {
 	if x.IsAtom() {
+		if ex := e.expandLetRoot(x.Atom); ex != x.Atom {
+			return e.val0(A(ex))
+		}
 		if lx, ok := e.lets[x.Atom]; ok {
 			return e.val(lx)
 		}
